@@ -336,11 +336,11 @@ func c06ByteSub() *engine.Sub {
 // ---- structured rewrites ----
 
 type c06RewriteCase struct {
-	Kind   string `json:"kind"`
-	Alg    string `json:"alg"`
-	Rw     string `json:"rw"`
-	Arg    string `json:"arg,omitempty"`
-	N      int    `json:"n,omitempty"`
+	Kind string `json:"kind"`
+	Alg  string `json:"alg"`
+	Rw   string `json:"rw"`
+	Arg  string `json:"arg,omitempty"`
+	N    int    `json:"n,omitempty"`
 }
 
 func c06FieldAlternatives(kind string) []kv {
@@ -360,8 +360,8 @@ func c06FieldAlternatives(kind string) []kv {
 
 func c06RewriteSub() *engine.Sub {
 	return &engine.Sub{
-		Name: "structured-rewrites",
-		Rule: "envelopes rebuilt with the harness' own assembler: every payload field replaced by every alternative value or dropped while keeping the old signature; the same SigPayload signed by another key of the same and of every other algorithm; signed by the issuer and by another key of its algorithm with the signature in the other encodings of its family (ECDSA: fixed-width r||s, s||r, DER; secp256k1 additionally the 65-byte compact recoverable form with every header byte class; Ed25519/RSA: reversed and doubled); the header replaced by every other algorithm's header, truncated, extended, emptied, both with the old signature and re-signed by the issuer; the signature truncated to every length, emptied, extended; signature and header taken from another valid token of the same issuer. Every decoder must reject, or return the original content with an independently verifiable signature; non-trivial = all",
+		Name:  "structured-rewrites",
+		Rule:  "envelopes rebuilt with the harness' own assembler: every payload field replaced by every alternative value or dropped while keeping the old signature; the same SigPayload signed by another key of the same and of every other algorithm; signed by the issuer and by another key of its algorithm with the signature in the other encodings of its family (ECDSA: fixed-width r||s, s||r, DER; secp256k1 additionally the 65-byte compact recoverable form with every header byte class; Ed25519/RSA: reversed and doubled); the header replaced by every other algorithm's header, truncated, extended, emptied, both with the old signature and re-signed by the issuer; the signature truncated to every length, emptied, extended; signature and header taken from another valid token of the same issuer. Every decoder must reject, or return the original content with an independently verifiable signature; non-trivial = all",
 		Bound: func(t string) string { return "2 kinds x 6 (quick) / 7 (thorough) algorithms" },
 		Gen: func(tier string, emit func(any) bool) {
 			algs := []string{"ed25519", "secp256k1", "p256", "p384", "p521", "rsa2048"}
